@@ -12,7 +12,7 @@ use verif_core::proptest::prelude::*;
 use verif_core::*;
 
 /// Window parameters for one uplink (frequency, SF, BW of TX; RX1 and RX2 configurations).
-pub fn check_windows(reg: Reg, snap: &VerifSnapshot, tx: &Rf, rx1: &Rf, rx2: &Rf, join: bool) -> Result<bool, (String, String)> {
+pub fn check_windows(reg: Reg, snap: &VerifSnapshot, tx: &Rf, rx1: &Rf, rx2: &Rf, join: bool, dl_map: Option<&std::collections::BTreeMap<usize, u32>>) -> Result<bool, (String, String)> {
     let Some(dr_up) = reg.dr_of(tx.sf, tx.bw_hz, true) else { return Err(("uplink-dr".into(), format!("TX SF{}/{} is not an uplink data rate of the region", tx.sf, tx.bw_hz))) };
     // RX1 frequency
     // several dynamic channels may share an uplink frequency: any of their pairings is admissible
@@ -20,7 +20,13 @@ pub fn check_windows(reg: Reg, snap: &VerifSnapshot, tx: &Rf, rx1: &Rf, rx2: &Rf
         let Some(ch) = reg.channel_of_uplink_freq(tx.freq) else { return Err(("tx-channel".into(), format!("TX frequency {} is not an uplink channel of the fixed plan", tx.freq))) };
         vec![reg.downlink_freq(ch).unwrap()]
     } else {
-        let v: Vec<u32> = snap.plan.channels.iter().flatten().filter(|c| c.frequency == tx.freq).map(|c| c.dl_frequency.unwrap_or(c.frequency)).collect();
+        // the pairing the NETWORK established: downlink frequencies of acknowledged DlChannelReq
+        // commands (tracked from the answers, independently of the device's own table) when known,
+        // else the device's table
+        let v: Vec<u32> = snap.plan.channels.iter().enumerate().filter_map(|(i, c)| c.map(|c| (i, c))).filter(|(_, c)| c.frequency == tx.freq).map(|(i, c)| match dl_map {
+            Some(m) => m.get(&i).copied().unwrap_or(c.frequency),
+            None => c.dl_frequency.unwrap_or(c.frequency),
+        }).collect();
         if v.is_empty() { vec![tx.freq] } else { v }
     };
     if !want_f1.contains(&rx1.freq) {
@@ -76,11 +82,66 @@ pub fn judge(h: &History, recs: &[StepRec]) -> Result<u32, Failure> {
     let reg = Reg::from_name(h.cfg.region.name()).unwrap();
     let case = || h.json();
     let mut nt = 0;
+    // downlink-frequency mappings as the network knows them from the device's answers
+    let mut dl_map: std::collections::BTreeMap<usize, u32> = std::collections::BTreeMap::new();
+    let mut dl_known = !reg.fixed();
+    let mut pending: Option<Vec<crate::props::c08::Req>> = None;
     for r in recs {
         if r.outcome.is_panic() {
             break;
         }
-        if r.trace.iter().any(|e| matches!(e, Ev::Fault(_))) || r.txs.is_empty() {
+        if r.trace.iter().any(|e| matches!(e, Ev::Fault(_))) {
+            dl_known = false;
+            continue;
+        }
+        if matches!(r.step, Step::Join(_)) {
+            // CFLists redefine channels: the mapping restarts only for channels they touch; keep it simple
+            if r.deliveries.iter().any(|d| matches!(d.verdict, Verdict::JoinAccept { .. })) && !dl_map.is_empty() {
+                dl_known = false;
+            }
+            // requests whose answers never reached the network leave its view undefined
+            if pending.is_some() {
+                dl_known = false;
+            }
+            pending = None;
+        }
+        // answers carried by this uplink update the network's view before its windows are judged
+        if let (true, Some(t)) = (pending.is_some(), r.txs.iter().find(|t| !t.join)) {
+            let reqs = pending.take().unwrap();
+            use crate::props::c08::{expected_answers, Req};
+            let bytes = t.view.as_ref().map(|v| if v.fport == Some(0) { t.plain.clone().unwrap_or_default() } else { v.fopts.clone() }).unwrap_or_default();
+            let (ans, _) = verif_core::oracle::refcodec::split_cmds(&bytes, true);
+            let exp = expected_answers(&reqs, reg.fixed());
+            if ans.len() != exp.len() || ans.iter().zip(exp.iter()).any(|(a, e)| a.0 != e.0) {
+                dl_known = false;
+            } else {
+                for (a, (_, qi)) in ans.iter().zip(exp.iter()) {
+                    match &reqs[*qi] {
+                        Req::DlChannel { idx, freq } if a.1[0] & 3 == 3 => {
+                            dl_map.insert(*idx as usize, *freq);
+                        }
+                        Req::NewChannel { idx, .. } if a.1[0] & 3 == 3 => {
+                            dl_map.remove(&(*idx as usize));
+                        }
+                        _ => {}
+                    }
+                }
+            }
+        }
+        if r.deliveries.iter().any(|d| matches!(d.verdict, Verdict::SizeDontCare)) {
+            // the reference does not decide whether this frame fits: the network's view is undefined from here
+            dl_known = false;
+        }
+        if let Some(d) = r.deliveries.iter().find(|d| matches!(d.slot, Slot::Rx1 | Slot::Rx2) && matches!(d.verdict, Verdict::Accept { .. })) {
+            if let Verdict::Accept { fopts, fport, plain, .. } = &d.verdict {
+                let mut reqs = crate::props::c08::parse_reqs(fopts);
+                if *fport == Some(0) {
+                    reqs.extend(crate::props::c08::parse_reqs(plain));
+                }
+                pending = Some(reqs);
+            }
+        }
+        if r.txs.is_empty() {
             continue;
         }
         let join = matches!(r.step, Step::Join(_));
@@ -98,7 +159,7 @@ pub fn judge(h: &History, recs: &[StepRec]) -> Result<u32, Failure> {
             let rx2_default;
             let rx2 = if rxs.len() >= 2 { rxs[1] } else { rx2_default = None::<Rf>; let _ = &rx2_default; rxs[0] };
             if rxs.len() >= 2 {
-                match check_windows(reg, &r.snap_before, &tx.rf, rxs[0], rx2, join) {
+                match check_windows(reg, &r.snap_before, &tx.rf, rxs[0], rx2, join, dl_known.then_some(&dl_map)) {
                     Ok(n) => nt += n as u32,
                     Err((fp, d)) => return Err(fail(fp, d)),
                 }
@@ -123,7 +184,7 @@ pub fn judge(h: &History, recs: &[StepRec]) -> Result<u32, Failure> {
                 return Err(fail("no-rx1".into(), "no receive window was opened after the uplink".into()));
             }
             if singles.len() >= 2 {
-                match check_windows(reg, &r.snap_before, &tx.rf, singles[0].0, singles[1].0, join) {
+                match check_windows(reg, &r.snap_before, &tx.rf, singles[0].0, singles[1].0, join, dl_known.then_some(&dl_map)) {
                     Ok(n) => nt += n as u32,
                     Err((fp, d)) => return Err(fail(fp, d)),
                 }
@@ -174,7 +235,7 @@ fn enumerate_hook(w: &World, reg: Reg, join: bool, h: &History, st: &mut Stats) 
         let tx = Rf::from_parts(o.frequency, &o.bb, 0);
         let rx1 = Rf::from_parts(o.rx1.frequency, &o.rx1.bb, o.rx1.max_payload_len);
         let rx2 = Rf::from_parts(o.rx2.frequency, &o.rx2.bb, o.rx2.max_payload_len);
-        match check_windows(reg, &snap, &tx, &rx1, &rx2, join) {
+        match check_windows(reg, &snap, &tx, &rx1, &rx2, join, None) {
             Ok(n) => {
                 if n {
                     st.nt_hash(fnv64(format!("{:?}{:?}{:?}{:?}{}", tx, rx1, rx2, h.cfg.region, join).as_bytes()));
@@ -268,6 +329,12 @@ pub fn run(ctx: &mut Ctx) {
                                 cmds.push(Cmd::DlChannelReq { idx: 0, freq: fs[3] });
                             }
                             steps.push(Step::Send { port: 1, len: 1, confirmed: false, rx: RxPlan::rx1(Recipe::auth_cmds(1, cmds)) });
+                        }
+                        if !*otaa && !reg.fixed() && (off + delay) % 2 == 0 {
+                            // second downlink: move one mapping again and reset the other to the uplink frequency
+                            let d0 = reg.default_channels()[0];
+                            steps.push(Step::Send { port: 2, len: 1, confirmed: false, rx: RxPlan::default() });
+                            steps.push(Step::Send { port: 1, len: 1, confirmed: false, rx: RxPlan::rx1(Recipe::auth_cmds(1, vec![Cmd::DlChannelReq { idx: 0, freq: d0 }, Cmd::DlChannelReq { idx: 3, freq: if delay % 4 == 0 { fs[4] } else { fs[2] } }])) });
                         }
                         for d in &drs {
                             steps.push(Step::SetDr(*d));
